@@ -487,3 +487,172 @@ def _votes_are_distribution(B):
         out.append((f"m={m}:prefix-sum-step", Implies(hyp, nxt)))
         out.append((f"m={m}:rows-sum-to-one", Implies(And(hyp, c == C, *[x < C for x in v]), S == 1)))
     return out
+
+
+# ----------------------------------------------------------------------------- weighted vote shares: ContractableBOSS, TemporalDictionaryEnsemble
+CBOSS = "sktime/classification/dictionary_based/_cboss.py"
+TDE = "sktime/classification/dictionary_based/_tde.py"
+
+
+def _wens_inputs(module, clsname):
+    def inputs(B, case):
+        I = B.I
+        m = int(case)
+        ok, cls = I.mod_global(I.src.module(module), clsname)
+        obj = SObj(cls)
+        X = _panel3(B)
+        n = X.shape[0]
+        C = B.int("n_classes", 1)
+        cd = z3.Function("class_dictionary", z3.IntSort(), z3.IntSort())
+        B.I.ctx.inputs["class_dictionary"] = cd
+        members, votes, weights = [], [], []
+        for t in range(m):
+            clf = B.abstract(f"member{t}")
+            other = z3.Function(f"member{t}_own_dictionary", z3.IntSort(), z3.IntSort())     # a member's own dictionary may differ
+            d_t = Opaque(f"member{t}.class_dictionary")
+            d_t.getitem = (lambda f_: (lambda I2, o, key: f_(Z(key))))(other)
+            clf.attrs["class_dictionary"] = d_t
+            L = B.arr(f"votes{t}", dtype="int", shape=[n])
+            B.assume(ForAll(lambda i: And(cd(Z(L.fn(i))) >= 0, cd(Z(L.fn(i))) < Z(C), other(Z(L.fn(i))) >= 0, other(Z(L.fn(i))) < Z(C)), 0, n, "i"))
+            clf.results = {"predict": (lambda o_: (lambda I2, o, ev: o_))(L)}
+            members.append(clf)
+            votes.append(L)
+            w = B.real(f"weight{t}")
+            B.assume(w > 0)
+            weights.append(w)
+        d = Opaque("class_dictionary")
+        d.getitem = lambda I2, o, key: cd(Z(key))
+        wsum = weights[0]
+        for w in weights[1:]:
+            wsum = wsum + w
+        obj.attrs.update(_is_fitted=True, classifiers=SList(members, "list"), n_estimators=m, n_classes=C, class_dictionary=d,
+                         weights=SList(list(weights), "list"), weight_sum=ops.simp(wsum), random_state=B.opaque("random_state"), n_jobs=1)
+        obj.ghost = dict(members=members, votes=votes, cd=cd, C=C, X=X, m=m, weights=weights, wsum=wsum)
+        return {"self": obj, "X": X}
+    return inputs
+
+
+def _wvotes(g, upto, i, j, partial=None):
+    cd, votes, w = g["cd"], g["votes"], g["weights"]
+    s = z3.RealVal(0)
+    for t in range(upto):
+        s = s + z3.If(cd(Z(votes[t].fn(i))) == Z(j), w[t], z3.RealVal(0))
+    if partial is not None:
+        s = s + z3.If(And(Z(i) < Z(partial), cd(Z(votes[upto].fn(i))) == Z(j)), w[upto], z3.RealVal(0))
+    return s
+
+
+def _wens_inv(S):
+    g = S.A.self.ghost
+    t = [q for q, c in enumerate(g["members"]) if c is S.clf]
+    if len(t) != 1:
+        return False
+    t = t[0]
+    sums = S.sums
+    n, C = g["X"].shape[0], g["C"]
+    return And(Eq(sums.shape[0], n), Eq(sums.shape[1], C), S.preds is g["votes"][t], Eq(S.n, t),
+               ForAll(lambda i: ForAll(lambda j: Eq(sums.fn(i, j), _wvotes(g, t, i, j, partial=S.k)), 0, C, "j"), 0, n, "i"))
+
+
+def _wens_returns(A):
+    g = A.self.ghost
+    n, C, m = g["X"].shape[0], g["C"], g["m"]
+    return SArr((n, C), lambda i, j: ops.simp(_wvotes(g, m, i, j) / g["wsum"]), "real", "ndarray")
+
+
+for _mod, _file, _cls, _uni in (("sktime.classification.dictionary_based._cboss", CBOSS, "ContractableBOSS", True),
+                                ("sktime.classification.dictionary_based._tde", TDE, "TemporalDictionaryEnsemble", False)):
+    contract(f"{_file}::{_cls}.predict_proba", "C17,C16,C12", cases=["1", "2", "3"], inputs=_wens_inputs(_mod, _cls),
+             raises=[("ValueError", (lambda A: Z(A.X.shape[1]) > 1) if _uni else (lambda A: False))],
+             applicable=lambda A: isinstance(getattr(A.self, "ghost", None), dict), returns=_wens_returns, invariants={1: _wens_inv},
+             frame=lambda A: [A.self, A.X],
+             notes=["1..3 members with arbitrary positive weights; state invariant assumed: weight_sum == sum(weights) (set by fit); "
+                    "votes are counted through the ENSEMBLE's class dictionary (each member carries its own, possibly different one)"])
+
+
+# ----------------------------------------------------------------------------- individual BOSS: one nearest-neighbour query per instance
+def _iboss_inputs(B, case):
+    I = B.I
+    ok, cls = I.mod_global(I.src.module("sktime.classification.dictionary_based._boss"), "IndividualBOSS")
+    obj = SObj(cls)
+    X = _panel3(B)
+    n = X.shape[0]
+    C = B.int("n_classes", 1)
+    lbl = z3.Function("nearest_neighbour_label", z3.IntSort(), z3.IntSort())      # label the 1-NN search returns for bag i
+    cd = z3.Function("class_dictionary", z3.IntSort(), z3.IntSort())
+    B.assume(ForAll(lambda i: And(cd(lbl(Z(i))) >= 0, cd(lbl(Z(i))) < Z(C)), 0, n, "i"))
+    calls = []
+
+    def bag(i):
+        return Opaque("bag of words of one instance", prov=("bag", i))
+    bags = SArr((n,), bag, "obj", "list")
+    tr = B.abstract("sfa_transformer")
+    tr.results = {"transform": lambda I2, o, ev: SList([bags], "list")}
+
+    def _test_nn(I2, args, kwargs):
+        calls.append((list(args), dict(kwargs)))
+        b = args[0] if args else None
+        if not (isinstance(b, Opaque) and b.prov and b.prov[0] == "bag"):
+            raise Undecided("_test_nn called on something that is not a bag of the batch")
+        return lbl(Z(b.prov[1]))
+    d = Opaque("class_dictionary")
+    d.opaque_methods = {"get": lambda I2, recv, a, kw: cd(Z(a[0]))}
+    d.getitem = lambda I2, o, key: cd(Z(key))
+    obj.attrs.update(_is_fitted=True, transformer=tr, n_jobs=B.opaque("n_jobs"), random_state=B.opaque("random_state"),
+                     _test_nn=_native(_test_nn), class_dictionary=d, num_classes=C)
+    obj.ghost = dict(X=X, lbl=lbl, calls=calls, tr=tr, cd=cd, C=C)
+    return {"self": obj, "X": X}
+
+
+def _iboss_post(A, r):
+    g = A.self.ghost
+    n = g["X"].shape[0]
+    evs = [e for e in trace() if e.obj is g["tr"]]
+    ok = len(evs) == 1 and evs[0].method == "transform" and evs[0].arg(0) is g["X"] and \
+        all(len(a) == 1 and not kw for a, kw in g["calls"])          # every query sees its own bag and nothing else
+    if not ok or not isinstance(r, SArr):
+        return False
+    return And(Eq(r.len, n), ForAll(lambda i: Eq(r.fn(i), g["lbl"](Z(i))), 0, n, "i"))
+
+
+contract(f"{BOSS}::IndividualBOSS.predict", "C17,C16,C12", cases=["-"], inputs=_iboss_inputs,
+         raises=[("ValueError", lambda A: Z(A.X.shape[1]) > 1)],
+         ensures=[("label-i-is-the-nearest-neighbour-query-of-bag-i-alone", _iboss_post, {"modular": False})],
+         frame=lambda A: [A.self, A.X],
+         notes=["the SFA transformer and the 1-NN search (_test_nn) are abstract: the statement is that instance i is answered by ONE query "
+                "that receives bag i and nothing shared with the other instances"])
+
+
+def _iboss_proba_inputs(B, case):
+    d = _iboss_inputs(B, case)
+    obj = d["self"]
+    g = obj.ghost
+    n = g["X"].shape[0]
+    preds = SArr((n,), lambda i: g["lbl"](Z(i)), "int", "ndarray")
+    pc = []
+
+    def predict(I2, args, kwargs):
+        pc.append(args)
+        return preds
+    obj.attrs["predict"] = _native(predict)
+    g["pc"] = pc
+    return d
+
+
+def _iboss_proba_inv(S):
+    g = S.A.self.ghost
+    n, C = g["X"].shape[0], g["C"]
+    d = S.dists
+    return And(Eq(d.shape[0], n), Eq(d.shape[1], C),
+               ForAll(lambda i: ForAll(lambda j: Eq(d.fn(i, j), z3.If(And(Z(i) < Z(S.k), g["cd"](g["lbl"](Z(i))) == Z(j)), z3.RealVal(1), z3.RealVal(0))),
+                                       0, C, "j"), 0, n, "i"))
+
+
+contract(f"{BOSS}::IndividualBOSS.predict_proba", "C17,C16,C12", cases=["-"], inputs=_iboss_proba_inputs,
+         returns=lambda A: (lambda g: SArr((g["X"].shape[0], g["C"]),
+                                           lambda i, j: z3.If(g["cd"](g["lbl"](Z(i))) == Z(j), z3.RealVal(1), z3.RealVal(0)), "real", "ndarray"))(A.self.ghost),
+         applicable=lambda A: isinstance(getattr(A.self, "ghost", None), dict) and "pc" in A.self.ghost,
+         invariants={0: _iboss_proba_inv},
+         ensures=[("predict-called-once-on-the-callers-data", lambda A, r: len(A.self.ghost["pc"]) == 1 and A.self.ghost["pc"][0][0] is A.X, {"modular": False})],
+         frame=lambda A: [A.self, A.X],
+         notes=["one-hot row of the predicted label's column (a distribution by construction)"])
